@@ -63,6 +63,8 @@ Min(S) == CHOOSE x \in S : \A y \in S : x <= y
 \* recvAt[n][j]: number of local ticks n had received when the last TICK of j was delivered to n (0: never)
 \* linc[n][j]: incarnation of j that sent the last TICK delivered to n
 \* susp[n][j]: a justification to declare j FAILED at n exists (an XML-RPC n->j failed, or j restarted)
+\* stl[n][j]: the last TICK of j handled by n carried a LOWER counter than the one before (a restart of j that n did
+\*            not notice): n resets its reception date, so j is overdue at the next local tick (stealth restart)
 \* pendF[n][j]: INSTANCE_FAILURE notifications about j queued at n and not handled yet
 \* usermaster[n]: a Master chosen by the user through end_sync(master) on n
 GhostInit == [fsmp |-> [n \in Inst |-> "OFF"], mp |-> [n \in Inst |-> 0],
@@ -71,6 +73,7 @@ GhostInit == [fsmp |-> [n \in Inst |-> "OFF"], mp |-> [n \in Inst |-> 0],
               recvAt |-> [n \in Inst |-> [j \in Inst |-> 0]],
               linc |-> [n \in Inst |-> [j \in Inst |-> 0]],
               susp |-> [n \in Inst |-> [j \in Inst |-> FALSE]],
+              stl |-> [n \in Inst |-> [j \in Inst |-> FALSE]],
               pendF |-> [n \in Inst |-> [j \in Inst |-> 0]],
               usermaster |-> [n \in Inst |-> 0]]
 
@@ -78,7 +81,7 @@ GhostInit == [fsmp |-> [n \in Inst |-> "OFF"], mp |-> [n \in Inst |-> 0],
 ResetNode(g, n) == [g EXCEPT !.fsmp[n] = "OFF", !.mp[n] = 0,
                              !.ist[n] = [j \in Inst |-> "STOPPED"],
                              !.recvAt[n] = [j \in Inst |-> 0], !.linc[n] = [j \in Inst |-> 0],
-                             !.susp[n] = [j \in Inst |-> FALSE], !.pendF[n] = [j \in Inst |-> 0],
+                             !.susp[n] = [j \in Inst |-> FALSE], !.stl[n] = [j \in Inst |-> FALSE], !.pendF[n] = [j \in Inst |-> 0],
                              !.usermaster[n] = 0]
 
 \* one Supvisors status publication
@@ -94,7 +97,8 @@ GhostIPubs(g, ps) ==
   IF ps = <<>> THEN g
   ELSE LET p == Head(ps)
            g1 == [g EXCEPT !.ist[p[1]][p[2]] = p[3],
-                           !.susp[p[1]][p[2]] = IF p[3] \in {"STOPPED", "ISOLATED", "CHECKING"} THEN FALSE ELSE @]
+                           !.susp[p[1]][p[2]] = IF p[3] \in {"STOPPED", "ISOLATED", "CHECKING"} THEN FALSE ELSE @,
+                           !.stl[p[1]][p[2]] = IF p[3] \in {"STOPPED", "ISOLATED"} THEN FALSE ELSE @]
        IN GhostIPubs(g1, Tail(ps))
 
 DeliveredTick(r) == r.a = "Proxy" /\ r.k = "TICK" /\ r.d # r.n /\ r.d # 0 /\ r.post[r.d].alive
@@ -107,7 +111,11 @@ GhostStep(g, r) ==
       g2 == IF DeliveredTick(r)
             THEN [g1 EXCEPT !.recvAt[r.d][r.n] = r.post[r.d].tick,
                             !.susp[r.d][r.n] = @ \/ (g1.linc[r.d][r.n] # 0 /\ g1.linc[r.d][r.n] # r.pre[r.n].inc),
-                            !.linc[r.d][r.n] = r.pre[r.n].inc]
+                            !.linc[r.d][r.n] = r.pre[r.n].inc,
+                            \* (the counters are those the receiver itself reports: times.remote_sequence_counter)
+                            !.stl[r.d][r.n] = /\ r.pre[r.d].alive
+                                              /\ r.post[r.d].rem[r.n] < r.pre[r.d].rem[r.n]
+                                              /\ r.post[r.d].inst[r.n] \in ActiveS]
             ELSE g1
       g3 == [g2 EXCEPT !.susp = [n \in Inst |-> [j \in Inst |-> g2.susp[n][j] \/ <<n, j>> \in r.fails]]]
       g4 == IF r.a = "Rpc" /\ r.k = "end_sync" /\ r.d # 0 THEN [g3 EXCEPT !.usermaster[r.n] = r.d] ELSE g3
@@ -206,6 +214,10 @@ Completeness(g1, r) ==
      \A j \in Inst : /\ r.post[r.n].inst[j] # "FAILED"
                      /\ (j # r.n /\ r.post[r.n].inst[j] \in ActiveS /\ g1.recvAt[r.n][j] > 0)
                         => r.post[r.n].tick - g1.recvAt[r.n][j] <= T
+                     \* stealth restart: the reception date of the peer whose TICK counter went backwards is reset to the
+                     \* origin of the local counter (recvAt would be 1: the counter reported as `tick` is one ahead of the
+                     \* counter carried by the local TICK)
+                     /\ (j # r.n /\ r.post[r.n].inst[j] \in ActiveS /\ g1.stl[r.n][j]) => r.post[r.n].tick - 1 <= T
 
 \* the published instance states are what the status XML-RPC reports afterwards
 ViewConsistent(g1, r) == \A n \in Inst : r.post[n].alive => \A j \in Inst : r.post[n].inst[j] = g1.ist[n][j]
